@@ -152,11 +152,11 @@ func matchKnown(how, detail string, src []byte) string {
 		for _, h := range k.How {
 			ok = ok || h == how
 		}
-		// A SIGQUIT dump taken while the main goroutine runs on another thread has no frames
-		// ("goroutine running on other thread; stack unavailable"): for a TIMEOUT of a class that
+		// A SIGQUIT dump taken while the main goroutine runs on another thread or on the system stack has
+		// no cue frames (the parent retries, see runBatch; this is what remains): for a TIMEOUT of a class that
 		// also has an input predicate, the predicate alone then decides (otherwise the same known
 		// input is classified or not depending on where the signal happens to land).
-		noStack := how == "timeout" && k.input != nil && strings.Contains(detail, "top frames:") && !anyFrameRe.MatchString(detail)
+		noStack := how == "timeout" && k.input != nil && strings.Contains(detail, "top frames:") && !hasCueFrames(detail)
 		for _, re := range k.detail {
 			ok = ok && (noStack || re.MatchString(detail))
 		}
